@@ -153,6 +153,9 @@ pub enum AxisClass {
     Dyadic,
     /// explicit non-uniform axis whose ends are exactly 0 and n-1 (looks like the index axis at both ends)
     Anchored,
+    /// almost uniform: uniform spacing with a relative jitter of 2^-16 .. 2^-36 per knot (an even f32
+    /// axis widened to f64, time stamps with small jitter, values parsed from 7-digit text)
+    Jittered,
 }
 
 impl AxisClass {
@@ -166,9 +169,10 @@ impl AxisClass {
             AxisClass::Random => "random",
             AxisClass::Dyadic => "dyadic",
             AxisClass::Anchored => "anchored",
+            AxisClass::Jittered => "jittered",
         }
     }
-    pub const ALL: [AxisClass; 8] = [
+    pub const ALL: [AxisClass; 9] = [
         AxisClass::Index,
         AxisClass::Unit,
         AxisClass::Uniform,
@@ -177,6 +181,7 @@ impl AxisClass {
         AxisClass::Random,
         AxisClass::Dyadic,
         AxisClass::Anchored,
+        AxisClass::Jittered,
     ];
 }
 
@@ -288,6 +293,16 @@ pub fn axis<T: Flt>(src: &mut Src, n: usize, class: AxisClass, max_ratio_log2: O
                 x.push(cur);
             }
         }
+        AxisClass::Jittered => {
+            let e = src.int_in(-(T::EWIN as i64) / 2, (T::EWIN as i64) / 2) as i32;
+            let h = (1.0 + src.unit()) * 2f64.powi(e);
+            let x0 = (src.unit() * 16.0 - 8.0) * h;
+            let je = src.int_in(if T::MANT == 53 { -36 } else { -18 }, if T::MANT == 53 { -16 } else { -10 }) as i32;
+            for i in 0..n {
+                let eps = (src.unit() - 0.5) * 2f64.powi(je);
+                x.push(x0 + (i as f64 + eps) * h);
+            }
+        }
         AxisClass::Anchored => {
             // interior knots at random positions, then mapped affinely onto [0, n-1]
             let spread = match max_ratio_log2 {
@@ -324,6 +339,25 @@ pub fn axis<T: Flt>(src: &mut Src, n: usize, class: AxisClass, max_ratio_log2: O
             }
         }
     }
+    // extreme absolute scales (exact power-of-two rescaling): code that compares against an absolute
+    // epsilon, or against a fixed fraction of something, behaves differently there
+    if matches!(class, AxisClass::Uniform | AxisClass::Geometric | AxisClass::Clustered | AxisClass::Random | AxisClass::Jittered) && src.chance(1, 5) {
+        let m = x.iter().fold(0f64, |a, v| a.max(v.abs())).max(f64::MIN_POSITIVE);
+        let room = T::EWIN - 2;
+        let cur = m.log2().ceil() as i32;
+        // k moves the largest magnitude to about 2^-room or 2^room
+        let k = if src.bool() { -room - cur } else { room - cur };
+        let k = k.clamp(-2 * T::EWIN, 2 * T::EWIN);
+        let f = 2f64.powi(k / 2) * 2f64.powi(k - k / 2);
+        if f.is_finite() && f > 0.0 {
+            let scaled: Vec<f64> = x.iter().map(|v| v * f).collect();
+            // keep only if every knot and every interval stays a normal number of T
+            let tiny = if T::MANT == 53 { f64::MIN_POSITIVE * 1e20 } else { f32::MIN_POSITIVE as f64 * 1e8 };
+            if scaled.iter().all(|v| v.is_finite() && T::of(*v).f() == *v) && scaled.windows(2).all(|w| w[1] - w[0] > tiny) {
+                x = scaled;
+            }
+        }
+    }
     fix_increasing::<T>(&mut x);
     if class == AxisClass::Anchored && n >= 2 && x[n - 1] != (n - 1) as f64 {
         // rounding collided near the end: fall back to the plain index positions
@@ -345,7 +379,7 @@ pub fn axis<T: Flt>(src: &mut Src, n: usize, class: AxisClass, max_ratio_log2: O
 }
 
 pub fn axis_class(src: &mut Src) -> AxisClass {
-    AxisClass::ALL[src.weighted(&[2, 2, 3, 3, 3, 4, 3, 2])]
+    AxisClass::ALL[src.weighted(&[2, 2, 3, 3, 3, 4, 3, 2, 2])]
 }
 
 pub fn is_uniform(x: &[f64]) -> bool {
